@@ -58,7 +58,8 @@ def verus_verdict(tier, use_cache=True):
         except Exception:
             res = None
     if res is None:
-        res = V.run_verus(w.text, rlimit=rlimit, timeout=1200 if tier == 'quick' else 3000)
+        extra = ['--smt-option', 'smt.random_seed=' + os.environ['VERIF_SMT_SEED']] if os.environ.get('VERIF_SMT_SEED') else []
+        res = V.run_verus(w.text, rlimit=rlimit, timeout=1200 if tier == 'quick' else 3000, extra=extra)
         res['cache'] = 'miss'
         os.makedirs(os.path.dirname(cpath), exist_ok=True)
         res['json_ok'] = res.get('json') is not None
@@ -66,6 +67,33 @@ def verus_verdict(tier, use_cache=True):
         json.dump(slim, open(cpath, 'w'))
     diags = V.classify(res, w.text, fns, ins_lines=set(w.ins_line.keys()))
     inv = V.inventory(w.text, fns)
+    # stability: a failure must recur under two other solver seeds (module-restricted re-runs); otherwise it is
+    # reported as unstable (undecided), never as a violation
+    failing = [d for d in diags if d.fn is not None and not d.undecided]
+    if failing and not os.environ.get('VERIF_NO_RETRY'):
+        mods = sorted(set(d.fn.module for d in failing if d.fn.module))
+        recur = None
+        retry_log = []
+        for seed in (7, 23):
+            ckey = hashlib.sha256((w.sha + '|rl%d|seed%d|%s' % (rlimit, seed, ','.join(mods))).encode()).hexdigest()
+            cp = os.path.join(CACHE, 'verus', ckey + '.json')
+            r2 = None
+            if use_cache and os.path.exists(cp) and not os.environ.get('VERIF_NO_CACHE'):
+                r2 = json.load(open(cp))
+            if r2 is None:
+                r2 = V.run_verus(w.text, modules=mods, rlimit=rlimit * 2, timeout=1200, extra=['--smt-option', 'smt.random_seed=%d' % seed])
+                r2['json_ok'] = r2.get('json') is not None
+                json.dump({k: v for k, v in r2.items() if k != 'json'}, open(cp, 'w'))
+            d2 = V.classify(r2, w.text, fns, ins_lines=set(w.ins_line.keys()))
+            keys2 = set((d.fn.id, k) for d in d2 if d.fn is not None and not d.undecided for k in d.kinds)
+            und2 = set(d.fn.id for d in d2 if d.fn is not None and d.undecided)
+            retry_log.append({'seed': seed, 'modules': mods, 'failing': len(keys2), 'wall_s': round(r2.get('wall_s', 0), 1)})
+            recur = keys2 if recur is None else (recur & keys2)
+        for d in failing:
+            if not any((d.fn.id, k) in recur for k in d.kinds):
+                d.undecided = True
+                d.message = 'UNSTABLE (fails under the default seed, verifies under seed 7 or 23): ' + d.message
+        res['retry'] = retry_log
     return {'w': w, 'fns': fns, 'res': res, 'diags': diags, 'inv': inv}
 
 
